@@ -6,13 +6,13 @@ S = "Engine S: stateless exhaustive DFS over environment choice lists (completio
 C = "Engine C: the same explorer with the stream as subject and the consumer (poll_next, FnRef drops in any number/order, stream drop, interrupt) as environment"
 B = "Engine B: exhaustive enumeration of builder inputs / call sequences run through the real FnGraphBuilder and compared with a reference model"
 
-TRUST_RUN = "Trusted: tokio mpsc/RwLock (exercised, not explored inside), futures-util combinators (exercised), rustc. Bounded to the graph sizes, option menus and deviation bounds written into the evidence file; nothing is claimed beyond them."
+TRUST_RUN = "Trusted: tokio mpsc/RwLock (exercised, not explored inside), futures-util combinators (exercised), rustc. Bounded to the graph sizes, option menus, enumerated families and deviation bounds written into the evidence file (coverage.spaces); nothing is claimed beyond them."
 TRUST_BUILD = "Trusted: petgraph/daggy primitives as used by the reference comparison (only raw edge lists are read), the harness' reference models. Bounded to the sizes written into the evidence file."
 
 props = {
- "C01": ("S+C", "Exhaustive over every labelled DAG x every read/write declaration (n<=3 over 2 types quick, n=4 thorough), built through the real builder, then every schedule of the six concurrent _with APIs and the streams incl. interrupts and failing subsets; oracle computed from the declarations only: no conflicting pair in flight at any Start/yield.", "4.C01", TRUST_RUN, "stateless schedule enumeration (DFS over environment choices) of the real code + declaration-level conflict oracle"),
+ "C01": ("S+C", "Exhaustive over every labelled DAG x every read/write declaration (n<=3 over 2 types, n=4 over 1 type), built through the real builder, then every schedule of the concurrent _with APIs and the streams incl. interrupts, failing subsets and StreamOpts builder call orders; plus large enumerated families (two writers up to 300 unrelated functions apart, up to 130 data types, arithmetic irregular DAGs on 70/100 nodes) under five base schedules; oracle computed from the declarations only: no conflicting pair in flight at any Start/yield.", "4.C01", TRUST_RUN, "stateless schedule enumeration (DFS over environment choices) of the real code + declaration-level conflict oracle"),
  "C02": ("S+C", "Exhaustive over all labelled DAGs up to n=4 (quick) / n=5 (thorough), all 20 future-returning methods and 4 streams, both orders, limits, every interrupt position and failing subset (n<=3/4): at every hand-out all transitive user-edge predecessors have finished (FnRefs dropped).", "4.C02", TRUST_RUN, "stateless schedule enumeration of the real code + transitive-closure oracle"),
- "C03": ("S+C", "Same executions as C02 plus wide families (antichain, fan-in, fan-out, bipartite, chain, tree up to 257/1025 nodes) with <=1 deviation from four base schedules: no second hand-out, and every function handed out in clean runs.", "4.C03", TRUST_RUN, "stateless schedule enumeration + deviation-bounded exploration of wide graphs"),
+ "C03": ("S+C", "Same executions as C02 plus wide families (antichain, fans, two-depth fans, comb, bipartite, chain, tree up to 257/1025 nodes) with <=1 deviation from four base schedules, every topologically labelled DAG on 6 nodes (all isomorphism classes), 675 irregular graphs under schedules that keep a maximum antichain in flight, large irregular graphs: no second hand-out, every function handed out in clean runs, and no clean run that can never hand out a function.", "4.C03", TRUST_RUN, "stateless schedule enumeration + deviation-bounded exploration of wide graphs"),
  "C04": ("S", "All shapes from the empty graph up, all 20 methods, limits, every interrupt position/strategy/include flag, every failing subset, <=2 spurious polls, fresh waker per poll, tokio cooperative budget exhausted inside a poll (real tokio code path), wide families incl. everything-fails: the future always returns, never panics, is never pending without wake-up while nothing is left to complete, and every started user future has ended at return.", "4.C04", TRUST_RUN, "stateless schedule enumeration with deadlock / lost-wake-up / livelock detection in a controlled executor"),
  "C05": ("C", "Every consumer behaviour on all shapes n<=4 (quick) / 5 (thorough): any interleaving of poll_next and FnRef drops (several between polls), stream dropped at every point, spurious polls, fresh wakers, exhausted tokio budget, wide families with hold-everything-then-drop-everything consumers: Pending without wake-up only if every unyielded function is still blocked; parked consumer implies ended stream; None exactly after all yielded; no panic.", "4.C05", TRUST_RUN + " Cross-thread FnRef drops are covered by the reduction argument of DESIGN 2.2 (a drop and a poll share only the done channel).", "stateless consumer-behaviour enumeration of the real stream"),
  "C06": ("B+S+C", "Static half: every edge of every built graph (C11's space) that the user did not add is a Data edge between conflicting functions. Dynamic half: at every idle point (Pending, no wake-up) of every unlimited, uninterrupted, non-failing concurrent run / stream, every function whose built-graph predecessors finished has been started.", "4.C06", TRUST_RUN, "exhaustive input enumeration + stateless schedule enumeration with an idle-point oracle"),
@@ -28,12 +28,12 @@ props = {
  "C16": ("B", "Explicit-state search over all sequences of add_logic_edge/add_contains_edge calls (self edges, repeats, reversed pairs) up to length 5 (n=2), 4 (n=3), 3 (n=4) (one longer in thorough), single and batch forms: accept/reject results and the built edge set equal a map + reachability model.", "4.C16", TRUST_BUILD, "explicit-state search over operation sequences against a reference model"),
  "C17": ("B", "Every built graph of C11's quick space: GraphInfo::from_graph has mapped nodes in insertion order and exactly the raw edges with kinds; serde_yaml_ng round trip gives an equal value; iter/iter_rev are (reverse) topological.", "4.C17", TRUST_BUILD + " serde_yaml_ng is exercised, not verified.", "exhaustive bounded input enumeration incl. serialisation round trip"),
  "C18": ("B", "Guarded pop counter of RankCalc on every labelled DAG to n=5 (quick) / 6 (thorough) and on complete, layered (2-4 wide), diamond-chain and bipartite families to n=64 (96 thorough): each function popped <= n times, total <= n^2+n, with a hook-side abort so that a path-exponential implementation is reported instead of hanging.", "4.C18", TRUST_BUILD + " Uses the verif_hooks counter in RankCalc::calc.", "exhaustive bounded input enumeration with an instrumented step counter"),
- "C20": ("S", "Two &self runs (6 API/option combinations, 21 unordered pairs) on one shared graph driven by one explorer: every interleaving within the switch bound (unbounded for n<=1, 2 for n=2, deviation-bounded for n=3) and every environment answer of both; each run's projection is replayed alone on a fresh graph and must be identical (trace, menus, result).", "4.C20", TRUST_RUN + " Runs on different OS threads are modelled at poll granularity (FnGraph exposes no interior mutability).", "context-bounded interleaving of two real runs with a differential (solo replay) oracle"),
+ "C20": ("S+C", "Two &self runs (6 future configurations and 2 streams, 36 unordered pairs) on one shared graph driven by one explorer: every interleaving within the switch bound (unbounded for n<=1, 2 for n=2, deviation-bounded for n=3) and every environment answer of both; each run's projection is replayed alone on a fresh graph and must be identical (trace, menus, result).", "4.C20", TRUST_RUN + " Runs on different OS threads are modelled at poll granularity (FnGraph exposes no interior mutability).", "context-bounded interleaving of two real runs with a differential (solo replay) oracle"),
 }
 
 engines = [
  {"name": "S", "path": "harness/src/engine_s.rs", "serves_properties": ["C01","C02","C03","C04","C06","C07","C08","C09","C10","C15","C20"], "kind_free_text": S},
- {"name": "C", "path": "harness/src/engine_c.rs", "serves_properties": ["C01","C02","C03","C05","C06","C08","C15"], "kind_free_text": C},
+ {"name": "C", "path": "harness/src/engine_c.rs", "serves_properties": ["C01","C02","C03","C05","C06","C08","C15","C20"], "kind_free_text": C},
  {"name": "B", "path": "harness/src/props_build.rs", "serves_properties": ["C06","C11","C12","C13","C14","C16","C17","C18"], "kind_free_text": B},
 ]
 
